@@ -14,11 +14,9 @@ the driver evaluates `wf` on every table it is sent.
 * `own_page_exists`, `member_anchor_exists`   the second sentence of the property
 * `shorten_resolves`, `ctx_ok`   same-page shortening is harmless on the page it was computed for, and every
                           `taglink` call is made with the address of the page being written
-* `links_resolve_partial` every hyperlink the run emits resolves: 29 of the 30 producer rows without hypothesis
-                          (`links_resolve_rows`), the 30th (`fieldXref`: links in `@see` / `@note` / `@author` /
-                          `@since` fields, formatted by `FieldHandler.format()` after `switch_context` has ended)
-                          under `lateOk`; `links_resolve_counterexample`: such a field in an inherited
-                          docstring (open finding dead-link:docstring-field:shortened-for-another-page)
+* `links_resolve`         FULL STRENGTH, ALL 30 PRODUCER ROWS: every hyperlink the run emits resolves (row `fieldXref`
+                          = links in `@see` / `@note` / `@author` / `@since` fields, formatted by `FieldHandler.format()`,
+                          under `switch_context(obj)` since 0ff33e4; historical `links_resolve_counterexample_field_old`)
 * `origin`, `mem_emits`   one pass over the producer table / what the guard in `taglink` leaves of it
 * historical counterexamples (pre-fix `…Old` definitions): `links_resolve_counterexample_superseded_old`
   (DESIGN §8-4, before cb98646), `…_hidden_old` (§8-11, before aaed9bd), `…_context_old` (before 1da744b),
@@ -509,7 +507,7 @@ def Origin (s : Sys) (e : Emit) : Prop :=
   | .docXref =>
       ∃ o op, Shown s e.page o ∧ e.target ∈ (s.ob o).xrefs ∧ pageObject s o = some op ∧ e.ctx = some (pageFile s op)
   | .fieldXref =>
-      ∃ o, Shown s e.page o ∧ e.target ∈ (s.ob o).laterefs ∧ e.ctx = (s.ob o).docCtx.map (pageFile s)
+      ∃ o op, Shown s e.page o ∧ e.target ∈ (s.ob o).laterefs ∧ pageObject s o = some op ∧ e.ctx = some (pageFile s op)
   | .annXref =>
       ∃ o op, Shown s e.page o ∧ e.target ∈ (s.ob o).annrefs ∧ pageObject s o = some op ∧ e.ctx = some (pageFile s op)
   | .valXref =>
@@ -549,17 +547,16 @@ theorem mem_docLinks {s : Sys} {pg : File} {o : Nat} {e : Emit} (h : e ∈ docLi
       exact ⟨rfl, rfl, ht, op, hop, rfl⟩
 
 theorem mem_lateLinks {s : Sys} {pg : File} {o : Nat} {e : Emit} (h : e ∈ lateLinks s pg o) :
-    e.row = .fieldXref ∧ e.page = pg ∧ e.target ∈ (s.ob o).laterefs ∧ e.ctx = (s.ob o).docCtx.map (pageFile s) := by
+    e.row = .fieldXref ∧ e.page = pg ∧ e.target ∈ (s.ob o).laterefs ∧
+      ∃ op, pageObject s o = some op ∧ e.ctx = some (pageFile s op) := by
   unfold lateLinks at h
   split at h
   · simp at h
   · split at h
-    · rename_i hc
+    · simp at h
+    · rename_i op hop
       obtain ⟨t, ht, rfl⟩ := List.mem_map.mp h
-      exact ⟨rfl, rfl, ht, by simp [link, hc]⟩
-    · rename_i sp hc
-      obtain ⟨t, ht, rfl⟩ := List.mem_map.mp h
-      exact ⟨rfl, rfl, ht, by simp [link, hc]⟩
+      exact ⟨rfl, rfl, ht, op, hop, rfl⟩
 
 theorem mem_annLinks {s : Sys} {pg : File} {o : Nat} {e : Emit} (h : e ∈ annLinks s pg o) :
     e.row = .annXref ∧ e.page = pg ∧ e.target ∈ (s.ob o).annrefs ∧
@@ -842,9 +839,9 @@ theorem origin_doc {s : Sys} {p o : Nat} {e : Emit} (hp : p ∈ pages s) (ho : o
 
 theorem origin_late {s : Sys} {p o : Nat} {e : Emit} (hp : p ∈ pages s) (ho : o = p ∨ o ∈ methods s p)
     (h : e ∈ lateLinks s (pageFile s p) o) : Origin s e := by
-  obtain ⟨h1, h2, h3, h4⟩ := mem_lateLinks h
+  obtain ⟨h1, h2, h3, op, h4, h5⟩ := mem_lateLinks h
   simp only [Origin, h1]
-  exact ⟨o, ⟨p, hp, h2, ho⟩, h3, h4⟩
+  exact ⟨o, op, ⟨p, hp, h2, ho⟩, h3, h4, h5⟩
 
 theorem origin_ann {s : Sys} {p o : Nat} {e : Emit} (hp : p ∈ pages s) (ho : o = p ∨ o ∈ methods s p)
     (h : e ∈ annLinks s (pageFile s p) o) : Origin s e := by
@@ -1238,8 +1235,7 @@ theorem shown_page {s : Sys} (w : WF s) {pg : File} {o op : Nat} (h : Shown s pg
 /-- every `taglink` call is made with the address of the page the link is written into (or none), or for
 a target that has its own page (since 1da744b also for docstrings that are inherited or whose object was
 re-exported) -/
-theorem ctx_ok {s : Sys} (w : WF s) {e : Emit} (h : e ∈ requests s) (hl : e.row.isLink = true)
-    (hf : e.row ≠ .fieldXref) : ctxOk s e := by
+theorem ctx_ok {s : Sys} (w : WF s) {e : Emit} (h : e ∈ requests s) (hl : e.row.isLink = true) : ctxOk s e := by
   have ho := origin h
   cases hrow : e.row <;> simp only [Origin, hrow] at ho <;>
     (first | exact .inr (.inl ho.1) | exact .inl ho.1 | skip)
@@ -1257,7 +1253,9 @@ theorem ctx_ok {s : Sys} (w : WF s) {e : Emit} (h : e ∈ requests s) (hl : e.ro
   case docXref =>
     obtain ⟨o, op, hs, _, hpo, hc⟩ := ho
     exact .inr (.inl (by rw [hc, shown_page w hs hpo]))
-  case fieldXref => exact absurd hrow hf
+  case fieldXref =>
+    obtain ⟨o, op, hs, _, hpo, hc⟩ := ho
+    exact .inr (.inl (by rw [hc, shown_page w hs hpo]))
   case annXref =>
     obtain ⟨o, op, hs, _, hpo, hc⟩ := ho
     exact .inr (.inl (by rw [hc, shown_page w hs hpo]))
@@ -1281,46 +1279,15 @@ theorem mem_emits {s : Sys} {e : Emit} (h : e ∈ emits s) :
       exact .inr ⟨rfl, by simpa using hv, r, hr, hrow, rfl, rfl, rfl⟩
     · cases hg
 
-/-- the bodies of the `@see` / `@note` / `@author` / `@since` fields are formatted for the page the docstring
-is displayed on: the linker of the docstring's source remembers that very page (so for every docstring that
-is not inherited) -/
-def lateOk (s : Sys) : Prop :=
-  ∀ o, (s.ob o).laterefs = [] ∨ (s.ob o).docCtx = pageObject s o
-
-/-- a link of a late-formatted field fits its page when the source's linker remembers that page -/
-theorem late_ctx_ok {s : Sys} (w : WF s) {e : Emit} (h : e ∈ requests s) (hf : e.row = .fieldXref)
-    (hl : lateOk s) : ctxOk s e := by
-  have ho := origin h
-  simp only [Origin, hf] at ho
-  obtain ⟨o, hs, ht, hc⟩ := ho
-  rcases hl o with h0 | h0
-  · rw [h0] at ht; cases ht
-  · rw [h0] at hc
-    cases hpo : pageObject s o with
-    | none => rw [hpo] at hc; exact .inl hc
-    | some op =>
-      rw [hpo] at hc
-      exact .inr (.inl (by rw [hc]; simp [shown_page w hs hpo]))
-
-/-- **C11, 29 of the 30 producer rows at full strength**, and the 30th (links in `@see` / `@note` / `@author` /
-`@since` fields) when the docstring's linker remembers the page the docstring is displayed on. Every
-hyperlink the run emits leads to a file that was written and, if it has a fragment, to an anchor of that file.
-(Before cb98646 / aaed9bd / 1da744b / f972163 this was false in four more ways: see the `…_old` counterexamples.) -/
-theorem links_resolve_partial {s : Sys} (w : WF s) {e : Emit} (h : e ∈ emits s)
-    (hf : e.row = .fieldXref → lateOk s) : resolves s e = true := by
+/-- **C11, every producer row (30), full strength.** Every hyperlink the run emits leads to a file that
+was written and, if it has a fragment, to an anchor of that file.
+(Before cb98646 / aaed9bd / 1da744b / f972163 / 0ff33e4 this was false in five ways: see the `…_old` counterexamples.) -/
+theorem links_resolve {s : Sys} (w : WF s) {e : Emit} (h : e ∈ emits s) : resolves s e = true := by
   rcases mem_emits h with ⟨hr, hv⟩ | ⟨hl, _⟩
   · cases hlink : e.row.isLink with
     | false => simp [resolves, resolvesIn, hlink]
-    | true =>
-      by_cases hrow : e.row = .fieldXref
-      · exact resolves_of_visible w e hv (late_ctx_ok w hr hrow (hf hrow))
-      · exact resolves_of_visible w e hv (ctx_ok w hr hlink hrow)
+    | true => exact resolves_of_visible w e hv (ctx_ok w hr hlink)
   · simp [resolves, resolvesIn, hl]
-
-/-- every row but the late-formatted fields: no hypothesis -/
-theorem links_resolve_rows {s : Sys} (w : WF s) {e : Emit} (h : e ∈ emits s) (hrow : e.row ≠ .fieldXref) :
-    resolves s e = true :=
-  links_resolve_partial w h (fun hf => absurd hf hrow)
 
 
 /-! ### "View In Hierarchy": every class page's anchor is in classIndex.html -/
@@ -1869,8 +1836,8 @@ theorem links_resolve_counterexample_context_old :
   decide
 
 /-- `class B` with `meth` and `o` (docstring: `@see: L{meth}`); `class S(B)` redefines `o` without docstring.
-`S.o` (5) shows the docstring of `B.o` (3); the `@see` field is formatted by `FieldHandler.format()`, after
-`switch_context` has ended, for the page the linker of `B.o` remembers: the page of `B` (`docCtx = 1`). -/
+`S.o` (5) shows the docstring of `B.o` (3); the `@see` field is formatted by `FieldHandler.format()`; the
+linker of `B.o` remembers the page of `B` (`docCtx = 1`). -/
 def sLateField : Sys :=
   { objs := #[ mkObj ['m'] .module none .pub [1, 4],
               { mkObj ['B'] .cls (some 0) .pub [2, 3] with mro := [1] },
@@ -1881,17 +1848,18 @@ def sLateField : Sys :=
               { mkObj ['o'] .function (some 4) .pub [] with docSource := some 3, docCtx := some 1, laterefs := [2], hasDoc := true } ],
     all := [0, 1, 2, 3, 4, 5], roots := [0], depth := 1, nosidebar := false }
 
-/-- the full statement is false today: the link to the visible, reached `B.meth` in the `@see` field of the
-inherited docstring is shortened to `#meth` relative to `m.B.html` and written into `m.S.html`, which has no
-such anchor. On the page of `B` itself the same field resolves; every other row of the run resolves. -/
-theorem links_resolve_counterexample :
+/-- before 0ff33e4: the link to the visible, reached `B.meth` in the `@see` field of the inherited docstring was
+shortened to `#meth` relative to `m.B.html` (the page the linker of `B.o` remembers) and written into `m.S.html`,
+which has no such anchor. Now the field is formatted under `switch_context(obj)`: the context is `m.S.html`. -/
+theorem links_resolve_counterexample_field_old :
     wf sLateField = true ∧ visible sLateField 2 = true ∧ urlResolves sLateField 2 = true ∧
-    ((emits sLateField).any fun e =>
-        e.row == .fieldXref && e.page == .page ['m', '.', 'S'] && e.ctx == some (.page ['m', '.', 'B']) &&
-          !resolves sLateField e) = true ∧
-    ((emits sLateField).all fun e =>
-        e.row != .fieldXref || e.page == .page ['m', '.', 'B'] || !resolves sLateField e) = true ∧
-    ((emits sLateField).all fun e => e.page != .page ['m', '.', 'B'] || resolves sLateField e) = true := by
+    ((lateLinksOld sLateField (.page ['m', '.', 'S']) 5).any fun e =>
+        e.row == .fieldXref && e.ctx == some (.page ['m', '.', 'B']) && !resolves sLateField e) = true ∧
+    -- fixed code
+    ((lateLinks sLateField (.page ['m', '.', 'S']) 5).all fun e =>
+        e.row == .fieldXref && e.ctx == some (.page ['m', '.', 'S']) && resolves sLateField e) = true ∧
+    ((emits sLateField).any fun e => e.row == .fieldXref && e.page == .page ['m', '.', 'S']) = true ∧
+    (emits sLateField).all (resolves sLateField) = true := by
   decide
 
 /-- `pk/_impl.py`: `DEFAULT = 1`, `def f(x=DEFAULT)`; `pk/__init__.py` re-exports `f` (`__all__ = ['f']`).
